@@ -79,6 +79,7 @@ def run_shard(spec):
                     continue  # test-pinned fallback: @name edits the body when name exists there
                 base = {"op": op.kind, "cls": op.cls, "wrappers": E.wrappers_label(dv),
                         "layers": str(min(len(dv.layers), 3)), "step": "first" if si == 0 else "later"}
+                base.update(B.mixed_keys(dv, op.npath))
                 sem = J.judge_semantics(dv, op, r, base_key=dict(base))
                 if sem:
                     B.bump(obs, "skipped_semantic_failure")
@@ -101,6 +102,7 @@ def run_shard(spec):
             pred = M.predict_set(tree_in, segs, vt) if op.kind == "set" else M.predict_rm(tree_in, segs)
             base = {"op": op.kind, "cls": op.cls, "wrappers": E.wrappers_label(dv),
                     "shape": pred.shape, "step": "first" if si == 0 else "later"}
+            base.update(B.mixed_keys(dv, op.npath))
             # only edits whose semantic effect is right are judged for locality (the rest is C05's)
             sem = J.judge_semantics(dv, op, r, base_key=dict(base))
             if sem:
